@@ -108,10 +108,15 @@ structure ClientCurrent where
   isHash : Bool
   hashCode : Nat
   hashType : Int
+  isTimeout : Bool := false
+  /-- in ms -/
+  timeout : Int := 0
+  serverIP : String := ""
+  serverPort : String := ""
 deriving DecidableEq, Repr
 
 /-- `newClientCurrent` -/
-def newClientCurrent : ClientCurrent := ⟨false, 0, 0⟩
+def newClientCurrent : ClientCurrent := { isHash := false, hashCode := 0, hashType := 0 }
 
 /-- `current.SetClientHash`; the context either carries a `ClientCurrent` (`some`) or not (`none`,
     the call is then a no-op returning `false`) -/
@@ -125,6 +130,62 @@ def getClientHash (cc : Option ClientCurrent) : Bool × Int × Nat × Bool :=
   match cc with
   | some c => (true, c.hashType, c.hashCode, c.isHash)
   | none => (false, 0, 0, false)
+
+/-- `current.SetClientTimeout`: its own two fields, nothing else -/
+def setClientTimeout (cc : Option ClientCurrent) (timeout : Int) : Option ClientCurrent × Bool :=
+  match cc with
+  | some c => (some { c with isTimeout := true, timeout := timeout }, true)
+  | none => (none, false)
+
+/-- `current.GetClientTimeout`: `(isOk, timeout, isTimeout)` -/
+def getClientTimeout (cc : Option ClientCurrent) : Bool × Int × Bool :=
+  match cc with
+  | some c => (true, c.timeout, c.isTimeout)
+  | none => (false, 0, false)
+
+/-- `current.SetServerIPWithContext` -/
+def setServerIP (cc : Option ClientCurrent) (ip : String) : Option ClientCurrent × Bool :=
+  match cc with
+  | some c => (some { c with serverIP := ip }, true)
+  | none => (none, false)
+
+/-- `current.SetServerPortWithContext` -/
+def setServerPort (cc : Option ClientCurrent) (port : String) : Option ClientCurrent × Bool :=
+  match cc with
+  | some c => (some { c with serverPort := port }, true)
+  | none => (none, false)
+
+/-- one per-call option applied to the client context (every setter of clientcurrent.go) -/
+inductive CtxOp where
+  | hash (hashType : Int) (hashCode : Nat)
+  | timeout (ms : Int)
+  | serverIP (ip : String)
+  | serverPort (port : String)
+deriving DecidableEq, Repr
+
+def applyCtxOp (cc : Option ClientCurrent) : CtxOp → Option ClientCurrent
+  | .hash t c => (setClientHash cc t c).1
+  | .timeout ms => (setClientTimeout cc ms).1
+  | .serverIP ip => (setServerIP cc ip).1
+  | .serverPort p => (setServerPort cc p).1
+
+def applyCtxOps (cc : Option ClientCurrent) (ops : List CtxOp) : Option ClientCurrent := ops.foldl applyCtxOp cc
+
+/-- the last hash option of a sequence of options -/
+def lastHash : List CtxOp → Option (Int × Nat)
+  | [] => none
+  | op :: ops =>
+    match lastHash ops with
+    | some h => some h
+    | none => (match op with | .hash t c => some (t, c) | _ => none)
+
+/-- the last timeout option -/
+def lastTimeout : List CtxOp → Option Int
+  | [] => none
+  | op :: ops =>
+    match lastTimeout ops with
+    | some h => some h
+    | none => (match op with | .timeout ms => some ms | _ => none)
 
 /-- the hash fields of `tars.Message` -/
 structure Msg where
